@@ -55,6 +55,7 @@ func runC19(p *core.Prog, r *core.Result) {
 		"R19.8 rewriting an existing file leaves nothing of the old contents behind: the writer opens its destination with os.Create, or with os.OpenFile whose constant flags include O_TRUNC (or writes a fresh temporary that is renamed over it) - without truncation a shorter configuration (tidy dropping requirements) keeps the tail of the old file, which is often still valid TOML: the dropped requirements come back",
 		"R19.9 what get and tidy can write, the loader accepts: the loader admits a requirement version only if semver.IsValid(v) and semver.Canonical(v) == v, so every version a repository lists (the only source of versions for get's queries) is admitted to the list on the edge where the same two tests hold - a tag such as v1.3 or v1.4.0+build7 would otherwise be resolved by `get x@latest`, written to dawn.toml, and make the file unloadable",
 		"R19.10 get and tidy rewrite dawn.toml only from steps that succeeded: at every WriteConfigFile call outside the configuration package, each fallible in-module call of the same function from which the write is reachable (loading the file, mvs.Get / UpgradeAll / Tidy) is known to have returned a nil error - an unchecked step hands a nil requirement set to the writer and the file loses its [requirements] table",
+		"R19.11 get and tidy lose no requirement: every existing name of a project that stays in the graph is written back (C11's R11.2: the name lists are kept per path and stored in a loop over all names) - a table keyed by path with one name per project drops the second name of an aliased requirement from the rewritten dawn.toml",
 		"R19.5 loading a configuration touches no package-level state: every load decodes the bytes afresh, so no two loaded configurations share maps or slices through a cache",
 		"R19.4 every format string of the writer is a constant: configuration data is only ever an operand, never the format",
 		"R19.1 the hand-written writer emits every toml-tagged field of Config and RequirementConfig, under the key given by the field's tag",
@@ -283,6 +284,7 @@ func runC19(p *core.Prog, r *core.Result) {
 	// ---- R19.9 what get can write, the loader accepts
 	checkListedVersionsLoadable(p, r, "R19.9")
 	checkRewriteOnlyAfterSuccess(p, r, "R19.10")
+	r.Floor("R19.11", importObligations(p, r, runC11, "C11", map[string]bool{"R11.2": true}, "R19.11"), 2, "obligations on the requirement names kept by get and tidy")
 
 	// ---- R19.8 the writer starts from an empty file
 	checkWriterTruncates(p, r, w, "R19.8")
